@@ -78,6 +78,9 @@ func c16Streams(tier string) []c16Stream {
 		// a command that turns the connection into a stream, followed by further commands
 		{Name: "subscribe-then-commands", Data: append(append(append(respCmd("SUBSCRIBE", "c16a"), respCmd("PING", "hello")...), respCmd("SUBSCRIBE", "c16b")...), respCmd("PING")...), HTTP: false},
 		{Name: "psubscribe-then-telnet", Data: []byte("PSUBSCRIBE c16*\r\nPING hello\r\nUNSUBSCRIBE nope\r\n"), HTTP: false},
+		// valid commands followed by malformed input once the connection is a subscription / a monitor
+		{Name: "subscribed-ping-then-malformed", Data: append(append(respCmd("SUBSCRIBE", "c16a"), respCmd("PING", "x")...), []byte("*x\r\n")...)},
+		{Name: "monitor-then-quit", Data: []byte("MONITOR\r\nQUIT\r\n")},
 		// an empty command name / a protocol switch in the middle / LF-only lines that the HTTP sniffer looks at
 		{Name: "empty-name-then-ping", Data: append([]byte("*1\r\n$0\r\n\r\n"), respCmd("PING")...), HTTP: false},
 		{Name: "telnet-empty-name-then-ping", Data: []byte("\"\"\r\nPING\r\n"), HTTP: false},
@@ -127,7 +130,7 @@ func c16Send(x *Exec, addr string, data []byte, cuts []int) string {
 }
 
 func checkC16Cuts(job *Job, res *Result) {
-	res.Rule = "SEQ over inputs x cuts: 29 streams (LF-terminated telnet streams must be answered like their CRLF twins, a 5 KB inline command like its RESP twin, a 5 KB URL like a short one) (incl. valid-then-malformed and stream-switching commands followed by further commands) x every 2-way cut (long streams: every cut within 80 bytes of a command / read-buffer boundary plus a stride), every 3-way cut for streams <= 120 bytes (thorough <= 200), byte-at-a-time for streams <= 400 bytes; distinct = distinct (stream, segmentation class)"
+	res.Rule = "SEQ over inputs x cuts: 31 streams (LF-terminated telnet streams must be answered like their CRLF twins, a 5 KB inline command like its RESP twin, a 5 KB URL like a short one) (incl. valid-then-malformed and stream-switching commands followed by further commands) x every 2-way cut (long streams: every cut within 80 bytes of a command / read-buffer boundary plus a stride), every 3-way cut for streams <= 120 bytes (thorough <= 200), byte-at-a-time for streams <= 400 bytes; distinct = distinct (stream, segmentation class)"
 	res.Assumptions = append(res.Assumptions, "each stream is replayed on a fresh connection of one server; its commands are idempotent so the state is the same for every replay", "the elapsed member of JSON replies is blanked")
 	streams := c16Streams(job.Tier)
 	caseNo := 0
